@@ -26,7 +26,18 @@ import (
 type decodeInfo struct {
 	subrs [][]byte
 	seacs []seacInfo
+
+	// numOps counts the charstring commands executed so far, for all
+	// glyphs of the font together.
+	numOps int
 }
+
+// maxCharstringOps limits the total number of charstring commands executed
+// while decoding the glyphs of one font.  Subroutines can call each other
+// up to ten levels deep, so that without a limit a font file of a few hundred
+// bytes can keep the decoder busy for days (and make it produce outlines of
+// unlimited size).
+const maxCharstringOps = 10_000_000
 
 type seacInfo struct {
 	name         string
@@ -154,6 +165,11 @@ glyphLoop:
 				code = code[2:]
 			} else {
 				code = code[1:]
+			}
+
+			info.numOps++
+			if info.numOps > maxCharstringOps {
+				return nil, invalidSince("too many charstring commands")
 			}
 
 		opSwitch:
